@@ -306,6 +306,36 @@ impl SubCheck for TsValue {
         one!(NMs, NMsO, n, 1, "naive ts_milliseconds");
         one!(NUs, NUsO, n, 2, "naive ts_microseconds");
         one!(NNs, NNsO, n, 3, "naive ts_nanoseconds");
+        // leap-second reading of this second (when it is a :59): the option module writes what the plain
+        // module writes, and the seconds modules write the timestamp of second 59 (what timestamp() reports)
+        if m.secs % 60 == 59 && m.frac < 1_000_000_000 {
+            obs.nt("leap_reading_written");
+            let ln = conv::ndt(Ndt { frac: m.frac + 1_000_000_000, ..*m });
+            let lu = ln.and_utc();
+            macro_rules! pair {
+                ($w:ident, $wo:ident, $val:expr, $label:expr) => {{
+                    let a = call("to_string", || serde_json::to_string(&$w { d: $val }))?.map_err(|e| e.to_string());
+                    let b = call("to_string", || serde_json::to_string(&$wo { d: Some($val) }))?.map_err(|e| e.to_string());
+                    ensure_eq!(b.is_ok(), a.is_ok(), "{}_option vs {} on a leap second: one of them fails", $label, $label);
+                    if let (Ok(a), Ok(b)) = (&a, &b) { ensure_eq!(b, a, "{}_option Some(leap second) vs {} JSON", $label, $label); }
+                    let ba = call("bincode", || bincode::serialize(&$w { d: $val }))?.ok();
+                    let bb = call("bincode", || bincode::serialize(&$wo { d: Some($val) }))?.ok();
+                    if let (Some(ba), Some(bb)) = (ba, bb) { ensure_eq!(bb[1..].to_vec(), ba, "{}_option Some(leap second) vs {} bincode", $label, $label); }
+                    a
+                }};
+            }
+            let s1 = pair!(US, USO, lu, "ts_seconds");
+            pair!(UMs, UMsO, lu, "ts_milliseconds");
+            pair!(UUs, UUsO, lu, "ts_microseconds");
+            pair!(UNs, UNsO, lu, "ts_nanoseconds");
+            let s2 = pair!(NS_, NSO, ln, "naive ts_seconds");
+            pair!(NMs, NMsO, ln, "naive ts_milliseconds");
+            pair!(NUs, NUsO, ln, "naive ts_microseconds");
+            pair!(NNs, NNsO, ln, "naive ts_nanoseconds");
+            let want = format!("{{\"d\":{}}}", t.div_euclid(NS));
+            ensure_eq!(s1.ok(), Some(want.clone()), "ts_seconds of a leap second");
+            ensure_eq!(s2.ok(), Some(want), "naive ts_seconds of a leap second");
+        }
         Ok(())
     }
 }
